@@ -31,7 +31,7 @@ def make_case(i, rng, tier):
             inp["label"], o.problem or o.unspecified, common.show_diff(o.items, inp["items"], "items")))
     main = common.stray_cc(rng, common.spec("main", inp, strict=True))
     tasks, sched = common.perturb(rng, [main], roots=True)
-    return {"input": {"root": inp["root"], "cc": inp["cc"], "enc": inp["enc"], "label": inp["label"], "optimized": rng.random() < 0.004,
+    return {"input": {"root": inp["root"], "cc": inp["cc"], "enc": inp["enc"], "label": inp["label"], "optimized": rng.random() < 0.004, "threads": rng.randrange(1 << 30) if rng.random() < 0.0025 else None,
                       "arms": sorted(set("%s.%s" % a for a in inp["arms"]))[:40]},
             "tasks": tasks, "schedule": sched}
 
@@ -87,6 +87,8 @@ def check(case):
                     label, it[2], it[1], it[3], got, want))
                 break
         res.count("text-forms-compared", n_text)
+    if case["input"].get("threads") is not None and len(data) < 1500:
+        common.check_threads(res, "C01", [dict(s, id="t0"), dict(s, id="t1"), dict(s, id="t2")], case["input"]["threads"], label=label)
     if case["input"].get("optimized") and len(data) < 3000:
         # the same decode in an interpreter started with -O (asserts stripped): the events must be the same ones
         import json
